@@ -175,8 +175,14 @@ class Interp:
         elif name == "send":
             kind, params, pol = args
             msg = sockops.build(self.gen, kind, params)
+            cyc = getattr(self, "_cycle", None)
+            in_cycle = (cyc is not None and not cyc.done()) or not self.rig.sock.is_open
             t = loop.spawn(self.rig.sock.send(msg, sockops.policy_of(pol)))
-            t.add_done_callback(self._valid_send_done)
+            if in_cycle:
+                # submitted while the application is closing / re-opening the socket: NotOpenError is the documented answer
+                t.add_done_callback(lambda t: t.cancelled() or t.exception())
+            else:
+                t.add_done_callback(self._valid_send_done)
         elif name == "send_bad":
             msg, hdr = bad_message(self.gen, args[0])
             if not self.rig.sock.is_connected:
@@ -210,6 +216,17 @@ class Interp:
             net.arm_on_accept.extend(args[0])
         elif name == "close_latency":
             net.close_latency = args[0]
+        elif name == "reopen":
+            # the application closes the socket and opens it again straight away (what shutdown() + init() do): from
+            # then on it is an open client again and everything above applies to it
+            async def cycle():
+                await self.rig.sock.close()
+                await self.rig.sock.open_socket()
+            prev = getattr(self, "_cycle", None)
+            if prev is None or prev.done():      # one application task does this, never two at once
+                self._cycle = loop.spawn(cycle())
+                self._cycle.add_done_callback(lambda t: t.cancelled() or t.exception())
+                self.reopened = True
         elif name == "ext_reset":
             t = loop.spawn(self.rig.sock.reset_connection())
             t.add_done_callback(lambda t: t.cancelled() or t.exception())
@@ -239,8 +256,13 @@ class Interp:
                                              f"(it was closed only by StreamWriter.__del__, i.e. by the garbage collector)")
         if self._send_error is not None:
             self.bad("valid-send-raised", f"send of a valid message raised {self._send_error!r}")
-        if self.rig.loop.unhandled:
-            self.bad("unhandled-exception", f"unhandled exception reported to the loop: {self.rig.loop.unhandled[0]}")
+        unhandled = self.rig.loop.unhandled
+        if getattr(self, "reopened", False):
+            # close() cancels the read loop; a subscriber task it had just started and that raises on purpose is then
+            # reported as 'never retrieved' - nothing of the client is affected (same note as in C15)
+            unhandled = [u for u in unhandled if "subscriber failure" not in str(u.get("exception", ""))]
+        if unhandled:
+            self.bad("unhandled-exception", f"unhandled exception reported to the loop: {unhandled[0]}")
         errs = harness.unhandled_task_errors()
         if errs:
             self.bad("task-died", f"a background task of the client died: {errs[0]}")
@@ -314,13 +336,13 @@ class Interp:
         self.rig.dispose()
 
 
-FAULTS = ["eof", "reset", "garbage", "badcrc", "trunc_eof", "undecodable", "writefault", "send_bad", "ext_reset", "script", "arm",
+FAULTS = ["reopen", "eof", "reset", "garbage", "badcrc", "trunc_eof", "undecodable", "writefault", "send_bad", "ext_reset", "script", "arm",
           "close_latency"]
 
 
 def _simple_op(gen):
     return st.one_of(
-        st.just(["eof"]), st.just(["reset"]), st.just(["ext_reset"]),
+        st.just(["eof"]), st.just(["reset"]), st.just(["ext_reset"]), st.just(["reopen"]),
         st.binary(min_size=1, max_size=40).map(lambda b: ["garbage", b.hex()]),
         st.integers(0, 15).map(lambda n: ["badcrc", n]),
         st.integers(0, 40).map(lambda n: ["trunc_eof", n]),
